@@ -28,7 +28,7 @@ pub struct Case {
 
 pub struct C13;
 
-pub const NKIND: u8 = 16;
+pub const NKIND: u8 = 21;
 
 fn value(b: u64, is32: bool, special: u8, i: usize) -> f64 {
     if special % 8 == 1 && i % 5 == 3 {
@@ -191,6 +191,103 @@ where
     Ok(absent || (dims[0] >= 2 && S::tname(dims).contains("Dyn")))
 }
 
+/// Conversions between types of DIFFERENT nesting depth: S = X<F> (subset) and P = X<Dual64> (each
+/// part of P is itself a dual number). Legal through `Dual64: SupersetOf<F>`: lifting embeds each part
+/// as a constant, the checked narrowing succeeds exactly when the predicate holds and extracts the
+/// real part of each part.
+fn pair_depth<S, P>(dims: &[usize], xs: &Flat, yp: &Flat, st: &mut Stats) -> Result<bool, Verdict>
+where
+    S: Ty + DualNum<<S as Ty>::F> + SubsetOf<P> + Scalar,
+    P: Ty<F = f64> + DualNum<f64> + SupersetOf<S> + Scalar,
+{
+    let (ls, lp) = (S::layout(dims), P::layout(dims));
+    let s32 = <S::F as Flt>::IS32;
+    let name = format!("{} -> {}", S::tname(dims), P::tname(dims));
+    let fail = |sig: &str, why: String| Verdict::Fail { sig: format!("C13/depth/{sig}"), why: format!("{name}: {why}; x = {}, y = {}", flat_json(&ls, xs), flat_json(&lp, yp)) };
+    // slot of P holding the real part / the inner derivative part of S's slot i
+    let find = |suffix: &str, i: usize| -> usize {
+        let want = format!("{}.{suffix}", ls.slots[i].name);
+        lp.slots.iter().position(|t| t.name == want).unwrap_or_else(|| panic!("HARNESS-BUG: no slot {want} in {}", P::tname(dims)))
+    };
+    let x = S::from_flat(dims, xs);
+    let xf = x.to_flat(dims);
+    // 1. lifting: every part becomes a constant
+    let y: P = x.to_superset();
+    let yf = y.to_flat(dims);
+    for i in 0..ls.slots.len() {
+        let (r, e) = (find("re", i), find("eps", i));
+        let present = ls.slot_present(i, &xf.pres);
+        let want = if present { xf.vals[i] } else { 0.0 };
+        if !same(yf.vals[r], want) && !(want == 0.0 && yf.vals[r] == 0.0) || yf.vals[e] != 0.0 {
+            return Err(fail("to_superset", format!("to_superset: part {} is {:e} + {:e} eps, expected the constant {:e}", ls.slots[i].name, yf.vals[r], yf.vals[e], want)));
+        }
+    }
+    let back = S::from_superset(&y);
+    if !<S as SubsetOf<P>>::is_in_subset(&y) || back.is_none() {
+        return Err(fail("roundtrip", format!("from_superset(to_superset(x)) is {} and is_in_subset is {}", if back.is_some() { "Some" } else { "None" }, <S as SubsetOf<P>>::is_in_subset(&y))));
+    }
+    let bf = back.unwrap().to_flat(dims);
+    for i in 0..ls.slots.len() {
+        let a = if ls.slot_present(i, &bf.pres) { bf.vals[i] } else { 0.0 };
+        let b = if ls.slot_present(i, &xf.pres) { xf.vals[i] } else { 0.0 };
+        if !same(a, b) && !(a == 0.0 && b == 0.0) {
+            return Err(fail("roundtrip", format!("from_superset(to_superset(x)): part {} is {a:e}, was {b:e}", ls.slots[i].name)));
+        }
+    }
+    // 2. an arbitrary value of the deeper type
+    let yv = P::from_flat(dims, yp);
+    let yvf = yv.to_flat(dims);
+    let pred = <S as SubsetOf<P>>::is_in_subset(&yv);
+    let r = S::from_superset(&yv);
+    let r2: Option<S> = yv.to_subset();
+    let r3: Option<S> = nalgebra::try_convert(yv.clone());
+    if r.is_some() != pred || r2.is_some() != pred || r3.is_some() != pred {
+        return Err(fail("coherence", format!("is_in_subset(y) = {pred} but from_superset / to_subset / try_convert give {} / {} / {}", r.is_some(), r2.is_some(), r3.is_some())));
+    }
+    let unchecked = S::from_superset_unchecked(&yv).to_flat(dims);
+    for (what, got) in [("from_superset", r.map(|v| v.to_flat(dims))), ("to_subset", r2.map(|v| v.to_flat(dims))), ("try_convert", r3.map(|v| v.to_flat(dims))), ("from_superset_unchecked", Some(unchecked))] {
+        if let Some(g) = got {
+            for i in 0..ls.slots.len() {
+                let src = yvf.vals[find("re", i)];
+                let src = if lp.slot_present(find("re", i), &yvf.pres) { src } else { 0.0 };
+                let want = if s32 { src as f32 as f64 } else { src };
+                let have = if ls.slot_present(i, &g.pres) { g.vals[i] } else { 0.0 };
+                if !same(have, want) && !(have == 0.0 && want == 0.0) {
+                    return Err(fail("narrowing", format!("{what}(y): part {} is {have:e}, expected the real part {want:e} of that part", ls.slots[i].name)));
+                }
+            }
+        }
+    }
+    st.class(&format!("nesting depth changes: {name}"));
+    Ok(pred)
+}
+
+macro_rules! kind_depth {
+    ($case:expr, $st:expr, $dims:expr, $s32:ty, $s64:ty, $p:ty) => {{
+        let case: &Case = $case;
+        let dims: &[usize] = $dims;
+        let (ls, lp) = (<$s64 as Ty>::layout(dims), <$p as Ty>::layout(dims));
+        let s32 = case.dir % 2 == 0;
+        let mkv = |n: usize, bits: &Vec<u64>, is32: bool| -> Vec<f64> { (0..n).map(|i| value(bits[i % bits.len()].rotate_left((i / bits.len()) as u32 * 3), is32, case.special, i)).map(|v| if is32 { v as f32 as f64 } else { v }).collect() };
+        let xs = Flat { vals: mkv(ls.slots.len(), &case.bits, s32), pres: (0..ls.blocks.len()).map(|b| case.pres[b % case.pres.len()]).collect() };
+        let mut yv = mkv(lp.slots.len(), &case.bits2, false);
+        // half of the cases: the inner derivative parts of y vanish (candidates for the subset)
+        if case.dir >= 2 {
+            for (i, s) in lp.slots.iter().enumerate() {
+                if s.name.ends_with(".eps") {
+                    yv[i] = 0.0;
+                }
+            }
+        }
+        let yp = Flat { vals: yv, pres: (0..lp.blocks.len()).map(|b| case.pres2[b % case.pres2.len()]).collect() };
+        if s32 {
+            pair_depth::<$s32, $p>(dims, &xs, &yp, $st)
+        } else {
+            pair_depth::<$s64, $p>(dims, &xs, &yp, $st)
+        }
+    }};
+}
+
 macro_rules! kind {
     ($case:expr, $st:expr, $dims:expr, $a32:ty, $a64:ty) => {{
         let case: &Case = $case;
@@ -236,7 +333,13 @@ pub fn run_case(case: &Case, st: &mut Stats) -> Result<bool, Verdict> {
         12 | 13 => kind!(case, st, d, Dual2Vec<f32, f32, Dyn>, Dual2Vec<f64, f64, Dyn>),
         // nested element types with heap storage
         14 => kind!(case, st, d, Dual<DualVec<f32, f32, Dyn>, f32>, Dual<DualVec<f64, f64, Dyn>, f64>),
-        _ => kind!(case, st, d, DualVec<Dual32, f32, Dyn>, DualVec<Dual64, f64, Dyn>),
+        15 => kind!(case, st, d, DualVec<Dual32, f32, Dyn>, DualVec<Dual64, f64, Dyn>),
+        // conversions that change the nesting depth
+        16 => kind_depth!(case, st, d, Dual32, Dual64, Dual<Dual64, f64>),
+        17 => kind_depth!(case, st, d, Dual2_32, Dual2_64, Dual2<Dual64, f64>),
+        18 => kind_depth!(case, st, d, DualVec<f32, f32, Dyn>, DualVec<f64, f64, Dyn>, DualVec<Dual64, f64, Dyn>),
+        19 => kind_depth!(case, st, d, DualVec<f32, f32, Const<2>>, DualVec<f64, f64, Const<2>>, DualVec<Dual64, f64, Const<2>>),
+        _ => kind_depth!(case, st, d, Dual2Vec<f32, f32, Const<2>>, Dual2Vec<f64, f64, Const<2>>, Dual2Vec<Dual64, f64, Const<2>>),
     }
 }
 
@@ -318,7 +421,7 @@ impl Property for C13 {
         }
     }
     fn rule() -> String {
-        "generated: (one of the four convertible types Dual, DualVec, Dual2, Dual2Vec, static N in {1,2,3,6} and dynamic 0..6, plus nested element types with heap storage (Dual<DualDVec>, DualDVec<Dual>); direction (F,F') in {f32,f64}^2; arbitrary finite parts from random bit patterns, values not representable in f32, NaN/inf; presence patterns with 35% absent parts on both the subset value and an independent superset value). Oracles: to_superset / from_subset / nalgebra::convert(_ref) give the per-part `as` conversion (exact when widening) and keep the presence pattern; from_superset(to_superset(x)) = Some(x); for EVERY superset value y, from_superset(y).is_some() == is_in_subset(y) == to_subset(y).is_some() == try_convert(y).is_some() (in particular with absent parts) and the narrowed value is the per-part rounding with the same presence pattern (also unchecked variants); lifting a float is a constant, extracting a float is the real part; Matrix::cast on matrices of duals. Memory: a counting global allocator checks that live allocations return to the pre-case level (leak oracle); the same check function runs under libFuzzer+ASan (fz_convert) and under Miri (thorough tier). Non-trivial: a value with an absent part, or dimension >= 2 with dynamic storage.".into()
+        "generated: (one of the four convertible types Dual, DualVec, Dual2, Dual2Vec, static N in {1,2,3,6} and dynamic 0..6, plus nested element types with heap storage (Dual<DualDVec>, DualDVec<Dual>) and five pairs whose nesting depth differs (X<f32|f64> <-> X<Dual64> for Dual, Dual2, DualVec dynamic and static, Dual2Vec: lifting makes every part a constant, the checked narrowing is coherent with is_in_subset / to_subset / try_convert and extracts the real part of every part); direction (F,F') in {f32,f64}^2; arbitrary finite parts from random bit patterns, values not representable in f32, NaN/inf; presence patterns with 35% absent parts on both the subset value and an independent superset value). Oracles: to_superset / from_subset / nalgebra::convert(_ref) give the per-part `as` conversion (exact when widening) and keep the presence pattern; from_superset(to_superset(x)) = Some(x); for EVERY superset value y, from_superset(y).is_some() == is_in_subset(y) == to_subset(y).is_some() == try_convert(y).is_some() (in particular with absent parts) and the narrowed value is the per-part rounding with the same presence pattern (also unchecked variants); lifting a float is a constant, extracting a float is the real part; Matrix::cast on matrices of duals. Memory: a counting global allocator checks that live allocations return to the pre-case level (leak oracle); the same check function runs under libFuzzer+ASan (fz_convert) and under Miri (thorough tier). Non-trivial: a value with an absent part, or dimension >= 2 with dynamic storage.".into()
     }
     fn assumptions() -> Vec<String> {
         vec!["simba's float conversions: every f64 is `in the subset` f32 (is_in_subset is constantly true for the primitive floats), narrowing is the `as` cast".into()]
